@@ -8,7 +8,9 @@ TARGETS = ["Run.vo", "RunSpec.vo"]
 IMPORTS = "From VF Require Import Base Show Gen_Errors Gen_Esr ErrTable Run."
 ALLOWED_AXIOMS = []
 PROFILES = ["debug"]
-RULE = ("exhaustive: all 65536 i16 codes through ErrorCode::get_error/get_code/get_message/esr_mask and "
+RULE = ("library-raised errors: value faults (out-of-range literals for all ten integer types, over-long non-decimal literals, undefined "
+        "unit suffixes, numeric_value out of range, response buffer exhausted) must be execution errors, syntax/header/type faults "
+        "command errors; and exhaustive: all 65536 i16 codes through ErrorCode::get_error/get_code/get_message/esr_mask and "
         "Error::custom(c).esr_mask(), in 32 chunks of 2048 codes; compared with the model over the regenerated "
         "tables (validates the translator) and, independently of the tables, with the spec class_bit; "
         "every chunk is non-trivial (distinct code ranges)")
@@ -16,8 +18,43 @@ ASSUMPTIONS = ["scpi_derive::ScpiError expands to first-match tables (modelled a
 CHUNK = 2048
 
 
+# errors the LIBRARY raises: (harness line, fault class) — value faults must be execution errors (-2xx),
+# syntax / header / data-type faults command errors (-1xx)
+def library_faults():
+    out = []
+    ints = {"i8": (-128, 127), "u8": (0, 255), "i16": (-2**15, 2**15 - 1), "u16": (0, 2**16 - 1), "i32": (-2**31, 2**31 - 1), "u32": (0, 2**32 - 1),
+            "i64": (-2**63, 2**63 - 1), "u64": (0, 2**64 - 1), "isize": (-2**63, 2**63 - 1), "usize": (0, 2**64 - 1)}
+    for ty, (lo, hi) in ints.items():
+        for lit in [str(lo - 1), str(hi + 1), str(lo - 4096) + ".0", str(hi + 4096) + ".0", "%de1" % hi, "-%de1" % max(abs(lo), 1), "1e400", "-1e400", "9" * 45, "-" + "9" * 45,
+                    "#H%X" % (hi + 1), "#HFFFFFFFFFFFFFFFFF", "#H" + "F" * 33, "#Q" + "7" * 44, "#B" + "1" * 130]:
+            out.append(("conv %s %s" % (ty, hexs(lit.encode())), "value"))
+        for el in ["'1'", "#11", "(1)", "ABC", "1 V"]:
+            out.append(("conv %s %s" % (ty, hexs(el.encode())), "type"))
+    bad = {"f32": ["'x'", "#11", "(1)", "1 V", "#H1", "ZZZ"], "f64": ["'x'", "#11", "(1)", "1 V", "#H1", "ZZZ"], "bool": ["'x'", "#11", "(1)", "#H1", "1 V"],
+           "bytes": ["#11", "(1)", "ZZZ", "1", "#H1"], "str": ["(1)", "ZZZ", "1"], "arb": ["'x'", "(1)", "ZZZ", "1"], "chr": ["'x'", "#11", "1"],
+           "expr": ["'x'", "#11", "ZZZ", "1"]}
+    for ty, els in bad.items():
+        for el in els:
+            out.append(("conv %s %s" % (ty, hexs(el.encode())), "type"))
+    out.append(("conv bool %s" % hexs(b"ZZZ"), "value"))
+    for q in ["Frequency", "Time", "ElectricPotential"]:
+        out.append(("unit %s %s" % (q, hexs(b"1 FOO")), "value")); out.append(("unit %s %s" % (q, hexs(b"'x'")), "type"))
+    for m in [b"CMD 1 2", b"CMD 'abc", b"CMD #", b"A::B", b"CMD 1,,2", b"CMD \x80", b"ABCDEFGHIJKLM", b"CMD 1ABCDEFGHIJKLMN", b"CMD #19", b"CMD (\""]:
+        out.append(("lex h %s" % hexs(m), "syntax"))
+    out.append(("nv i32 %s M10,m-10" % hexs(b"11"), "value")); out.append(("nv u8 %s -" % hexs(b"UP"), "value"))
+    # response buffer exhausted, undefined header, missing / extra parameter through a tree
+    tree = "L%s#1;" % hexs(b"CMD")
+    out.append(("tree 3 %s 1:r/di12345 %s" % (tree, hexs(b"CMD?")), "value"))
+    out.append(("tree v %s 1:r/di1 %s" % (tree, hexs(b"FOO")), "syntax")); out.append(("tree v %s 1:r/di1 %s" % (tree, hexs(b"CMD")), "syntax"))
+    out.append(("tree v %s 1:r/di1 %s" % (tree, hexs(b"CMD 1,2")), "syntax"))
+    return out
+
+
+_FAULT = dict(library_faults())
+
+
 def corpus():
-    return [f"errtab {lo} {lo + CHUNK - 1}" for lo in range(-32768, 32768, CHUNK)]
+    return [f"errtab {lo} {lo + CHUNK - 1}" for lo in range(-32768, 32768, CHUNK)] + list(_FAULT.keys())
 
 
 def generate(rng, tier): return []
@@ -26,8 +63,23 @@ def case_of_line(l): return l
 
 
 def coq_term(c):
+    if not c.startswith("errtab"): return '"SKIP"'          # library-raised errors: judged by their class only
     _, lo, hi = c.split(" ")
     return f"run_errtab {coq_Z(int(lo))} {coq_Z(int(hi))}"
+
+
+def impl_oracle(c, r):
+    import re
+    if r is None: return "no result from harness"
+    if r.startswith(("PANIC", "CRASH", "NOT-RUN", "HANG")): return "implementation panicked / died"
+    if c.startswith("errtab"): return None
+    fault = _FAULT.get(c)
+    codes = [int(x) for x in re.findall(r"(?:^|[ ,=])[EL](-\d+)", r)]
+    if not codes: return "a %s fault was not rejected: %s" % (fault, r[:80])
+    for code in codes:
+        if fault == "value" and not (-299 <= code <= -200): return "value fault reported as %d, not an execution error (-2xx)" % code
+        if fault in ("type", "syntax") and not (-199 <= code <= -100): return "%s fault reported as %d, not a command error (-1xx)" % (fault, code)
+    return None
 
 
 def obs(s): return s
@@ -38,6 +90,9 @@ def spec_search(cases, lines, impl, model_ok):
     """table-independent oracle: class_bit from ErrSpec.v, and the look-up round trip"""
     out = []
     terms = []
+    fault_n = len([c for c in cases if not c.startswith("errtab")])
+    keep = [(c, r) for c, r in zip(cases, impl) if c.startswith("errtab")]
+    cases = [c for c, _ in keep]; impl = [r for _, r in keep]
     for c in cases:
         _, lo, hi = c.split(" ")
         terms.append(f"spec_classbits {coq_Z(int(lo))} {coq_Z(int(hi))}")
